@@ -215,6 +215,12 @@ func (p *Parser) parseVP8XChunks(buf []byte) error {
 			return ErrInvalidChunk
 
 		case FourCCANIM:
+			if !isAnim {
+				// The container specification: an ANIM chunk MUST be ignored
+				// when the VP8X animation flag is not set. (ANMF chunks then
+				// fail below because no ANIM chunk was accepted.)
+				break
+			}
 			if int(payloadSize) < ANIMChunkSize {
 				return ErrInvalidChunk
 			}
